@@ -596,8 +596,10 @@ def bundle_cases(rng, tier, quick, thorough, special=None):
         for e_ in (prod, ('Add', [prod, x_])):
             cases.append((e_, [(2, root)], 2))
             cases.append((e_, [(2, float(root))], 2))
-    for _ in range(4):
-        ns = [rng.choice([3, 5, 7, 9, 11, 15, 21, 33]) for _ in range(rng.randint(14, 19))]
+    for _ in range(5):
+        # indices with many common factors (3, 9, 15, 21, 27, 33, 45, 81 ...): their product is far beyond 2^53 and so is
+        # its quotient by the gcd with the exponent of the power around the tower
+        ns = [rng.choice([9, 15, 21, 27, 33, 45, 81, 101, 7, 5]) for _ in range(rng.randint(12, 16))]
         t = x_
         for n_ in ns:
             t = ('NthRoot', t, n_)
